@@ -455,3 +455,23 @@ type Kennel struct {
 	Name    string
 	Keepers []Keeper
 }
+
+// polymorphic has-one on the same toys table (C12)
+type Dog struct {
+	ID   uint
+	Name string
+	Toy  Toy `gorm:"polymorphic:Owner"`
+}
+
+// belongs-to through a non-primary reference column (C12)
+type RegionRef struct {
+	ID   uint
+	Code string
+}
+
+type Shop struct {
+	ID         uint
+	Name       string
+	RegionCode string
+	Region     *RegionRef `gorm:"foreignKey:RegionCode;references:Code"`
+}
